@@ -15,17 +15,33 @@ def repeat_case(args) -> dict:
     try:
         from sedpack.io import Dataset
         _, ref = dsfamily.build(root, name)
-        fmt = dsfamily.RECIPES[name][0]
+        fmt = (dsfamily.RECIPES.get(name) or dsfamily.EXTRA[name])[0]
         ds_ = Dataset(root)
         for split, want in ref.items():
             N = len(want)
             S = dsfamily.n_shards(ds_, split)
-            one = D.ids(ds_, split, "sync")
-            k = 3 * N + 2
-            for iface in dsfamily.interfaces(fmt, with_rust=True):
-                for sh in (0, 2, N + 5):
-                    for par in ((1, 2, S + 2) if iface != "sync" else (None,)):
-                        kw = {"shuffle": sh}  # repeat left at its default
+            one_all = D.ids(ds_, split, "sync")
+            infos = list(ds_.shard_info_iterator(split))
+            first_file = {str(infos[0].file_infos[0].file_path)}
+            # shard selection options restrict the "split" that is cycled
+            sels = [("", {})]
+            if S >= 2:
+                sels.append((" shards=1", {"shards": 1}))
+                if S >= 3:
+                    sels.append((f" shards={S - 1}", {"shards": S - 1}))
+                sels.append((" filter=not-first", {
+                    "shard_filter": lambda si, ff=first_file: str(
+                        si.file_infos[0].file_path) not in ff}))
+            for sname, sel in sels:
+              one = one_all if not sel else D.ids(ds_, split, "sync", **sel)
+              want_sel = one
+              N = len(one)
+              k = 3 * N + 2
+              for iface in dsfamily.interfaces(fmt, with_rust=True):
+                for sh in ((0, 2, N + 5) if not sel else (0, 2)):
+                    for par in (((1, 2, S + 2) if not sel else (1, S + 2))
+                                if iface != "sync" else (None,)):
+                        kw = {"shuffle": sh, **sel}  # repeat at its default
                         if par:
                             kw["file_parallelism"] = par
                         if iface == "tf" and par == 2:
@@ -41,18 +57,21 @@ def repeat_case(args) -> dict:
                                  f"{type(e).__name__}: {str(e)[:120]}"))
                             continue
                         out["streams"] += 1
-                        desc = f"{name}/{split} {iface} {kw}"
+                        kshow = {a: b for a, b in kw.items()
+                                 if a != "shard_filter"}
+                        desc = f"{name}/{split} {iface} {kshow}{sname}"
                         if len(got) != k:
                             out["bad"].append(
                                 ("finite", iface,
                                  f"{desc}: default (repeating) stream ended "
                                  f"after {len(got)} < {k} examples"))
                             continue
-                        if set(got) - set(want):
+                        if set(got) - set(want_sel):
                             out["bad"].append(
                                 ("foreign", iface,
-                                 f"{desc}: examples of another split "
-                                 f"{sorted(set(got) - set(want))}"))
+                                 f"{desc}: examples outside of the selected "
+                                 f"part of the split "
+                                 f"{sorted(set(got) - set(want_sel))}"))
                         if sh == 0:
                             exp = [one[i % N] for i in range(k)]
                             if got != exp:
@@ -64,12 +83,15 @@ def repeat_case(args) -> dict:
                             for b in range(0, k - N + 1, N):
                                 blk = got[b:b + N]
                                 if collections.Counter(
-                                        blk) != collections.Counter(want):
+                                        blk) != collections.Counter(want_sel):
                                     out["bad"].append(
                                         ("epoch", iface,
                                          f"{desc}: epoch {b // N} = {blk} is "
-                                         f"not a permutation of the split"))
+                                         f"not a permutation of the selected "
+                                         f"examples"))
                                     break
+            one = one_all
+            N = len(one)
             # abandon a Rust stream and start a fresh one
             if fmt == "fb":
                 for cut in (1, N, N + 1):
@@ -119,7 +141,9 @@ def run(ctx):
     ctx.cov["explanation"] = (
         "for every dataset of the family and every interface the first "
         "3N+2 examples of the stream with repeat left at its default: all "
-        "from the split; unshuffled = one-pass sequence repeated; Rust: "
+        "from the split (also when restricted by shards=k or a shard "
+        "predicate: then from the selected shards); unshuffled = one-pass "
+        "sequence repeated; Rust: "
         "every epoch a permutation; abandoned Rust streams followed by "
         "fresh ones; shuffled Python paths with the random draws and pool "
         "interleavings enumerated under a deviation bound")
